@@ -30,6 +30,8 @@ FLOORS["quick"].update({'mixed_env_probes': 20})
 FLOORS["thorough"].update({'mixed_env_probes': 20})
 FLOORS["quick"].update({'big_arity_probes': 8})
 FLOORS["thorough"].update({'big_arity_probes': 8})
+FLOORS["quick"].update({'staged_conditions': 1000})
+FLOORS["thorough"].update({'staged_conditions': 5000})
 PROFILE = {"weights": {"timeout": 4, "zero": 1, "wait": 2, "succeed": 2.5, "fail": 1.2, "spawn": 1, "join": 1,
                        "interrupt": 0.6, "cb": 0.5, "cond": 5, "chain": 0.4, "cbint": 0.1},
            "max_top": 5, "max_child_scripts": 3, "min_ev": 1, "max_ev": 3, "p_exact": 0.9, "p_raise": 0.15,
